@@ -717,8 +717,9 @@ func (h *hintMgr) ClearChunk(chunkID int) {
 //        | B            => nil, true // should not happen when used in gc
 func (h *hintMgr) getCollisionGC(ki *KeyInfo) (it *HintItem, ChunkID int, collision bool) {
 	it, collision = h.collisions.get(ki.KeyHash, ki.StringKey)
-	if !collision {
+	if !collision || it == nil {
 		// only in mem, in new hints buffers after gc begin
+		// (or the table knows the key hash but not yet this key)
 		it, ChunkID, collision = h.getItemCollision(ki.KeyHash, ki.StringKey)
 	} else {
 		ChunkID = it.Pos.ChunkID
